@@ -114,6 +114,55 @@ class HandOff:
         self.args = []      # per C parameter: dict
 
 
+def _data_pointer_helpers(m) -> dict:
+    """cdef helpers of the module that only wrap the hand-off idiom:
+    `return <T*> PyArray_DATA(<its one array parameter>)` -> {name: cast type}"""
+    out = {}
+    for hname, hf in m.funcs.items():
+        body = [s for s in hf.body if not (s.k == "expr" and s.a and
+                                           getattr(s.a[0], "k", "") == "str")]
+        if len(hf.args) == 1 and len(body) == 1 and body[0].k == "return" and \
+                body[0].a[0] is not None and body[0].a[0].k == "cast" and \
+                body[0].a[0].a[1].k == "call" and \
+                pp(body[0].a[0].a[1].a[0]).endswith("PyArray_DATA") and \
+                len(body[0].a[0].a[1].a[1]) == 1 and \
+                pp(body[0].a[0].a[1].a[1][0]) == hf.args[0][0]:
+            out[hname] = body[0].a[0]
+    return out
+
+
+def _normalise_handoff(m, f, call: X) -> X:
+    """The hand-off call with every pointer argument in the direct form
+    `<T*> PyArray_DATA(array)`: typed pointer locals bound once are replaced by
+    their value, calls of data-pointer helpers by the cast they return."""
+    helpers = _data_pointer_helpers(m)
+
+    def direct(arg, depth=0):
+        if arg.k == "name" and depth < 3:
+            ploc = f.locals.get(arg.a[0])
+            cand = []
+            if ploc is not None and ploc[1] is not None:
+                cand.append(ploc[1])
+            for st_ in walk(f.body):
+                if isinstance(st_, X) and st_.k == "assign" and \
+                        any(t_.k == "name" and t_.a[0] == arg.a[0] for t_ in st_.a[0]):
+                    cand.append(st_.a[1])
+            if len(cand) == 1 and f.argtype(arg.a[0]) is None and (
+                    cand[0].k == "cast" or (
+                        cand[0].k == "call" and cand[0].a[0].k == "name"
+                        and cand[0].a[0].a[0] in helpers)):
+                return direct(cand[0], depth + 1)
+            return arg
+        if arg.k == "call" and arg.a[0].k == "name" and arg.a[0].a[0] in helpers and \
+                len(arg.a[1]) == 1 and not arg.a[2]:
+            c = helpers[arg.a[0].a[0]]
+            return X("cast", c.a[0], X("call", c.a[1].a[0], [arg.a[1][0]], {},
+                                       line=arg.line), line=arg.line)
+        return arg
+    return X("call", call.a[0], [direct(a) for a in call.a[1]], *call.a[2:],
+             line=call.line)
+
+
 def _handoffs(cy: CyProgram):
     out = []
     for m in cy.modules.values():
@@ -121,7 +170,7 @@ def _handoffs(cy: CyProgram):
             for s in walk(f.body):
                 if isinstance(s, X) and s.k == "call" and s.a[0].k == "name" and \
                         s.a[0].a[0] in m.externs:
-                    out.append(HandOff(f, s, s.a[0].a[0]))
+                    out.append(HandOff(f, _normalise_handoff(m, f, s), s.a[0].a[0]))
     return out
 
 
@@ -1014,6 +1063,14 @@ def _lower_fact(run, cy, cf, h, fvar, it: CInterp, sites) -> bool:
                             bases.add(der.a[0].a[0])
                         elif der.k == "index" and der.a[0].k == "name":
                             bases.add(der.a[0].a[0])
+                        elif der.k == "index":
+                            # (p + off)[k]: the one pointer the base is built from
+                            pn = [n_ for n_ in names_in(der.a[0])
+                                  if it.env.get(n_, ("",))[0] == "ptr" or
+                                  (n_ in dict(cf.params) and
+                                   is_ptr_type(dict(cf.params)[n_]))]
+                            if len(pn) == 1:
+                                bases.add(pn[0])
                         elif der.k == "deref":
                             pn = [n_ for n_ in names_in(der.a[0])
                                   if it.env.get(n_, ("",))[0] == "ptr" or
@@ -1071,23 +1128,34 @@ def _lower_fact(run, cy, cf, h, fvar, it: CInterp, sites) -> bool:
     if not css:
         return False
     pnames = [a for a, _ in w.args]
+    from .idioms import inline_simple_helpers, inline_locals
     for s in css:
         argmap = dict(zip(pnames, s.call.args))
         rv = argmap.get(rname)
         if not isinstance(rv, ast.Name):
             return False
-        defs = [st for st in ast.walk(s.func.node) if isinstance(st, ast.Assign)
-                and isinstance(st.targets[0], ast.Name) and st.targets[0].id == rv.id]
-        if len(defs) != 1:
+        # the value of the argument with locals and private helpers (also
+        # tuple-returning ones) replaced by what they stand for
+        def resolve(hname, _c=s.func.cls):
+            if _c is None or not hname.startswith("_"):
+                return None
+            for k_ in _c.mro:
+                if hname in k_.methods:
+                    return k_.methods[hname].node
+            return None
+        fnode = inline_simple_helpers(s.func.node, resolve)
+        val = inline_locals(fnode, rv)
+        if isinstance(val, ast.Name):
             return False
-        dsrc = ast.unparse(defs[0].value)
+        dsrc = ast.unparse(val)
         for arr in arrays:
             a = argmap.get(arr)
             base = a
             while isinstance(base, ast.Call) and ast.unparse(base.func) == "to_cy":
                 base = base.args[0]
-            b = ast.unparse(base)
-            if f"{b}.min()" not in dsrc:
+            # both sides with locals inlined: the same array expression
+            b = ast.unparse(inline_locals(fnode, base))
+            if f"{b}.min()" not in dsrc and f"np.min({b})" not in dsrc:
                 return False
         run.extra.setdefault("B6_facts", []).append(
             {"kernel": h.cname, "range_min": dsrc, "site": s.where, "covered": True})
